@@ -161,10 +161,13 @@ func vInitCode(runtime []byte, ctorStore bool) []byte {
 func vStoreContract() []byte { return vStoreContractV(0) }
 
 // vStoreContractV: the same contract followed by `pad` unreachable bytes, so that forks can deploy code of
-// different length at the same address; SSTORE(8, EXTCODESIZE(calldata word 1)) observes such differences
+// different length at the same address; SSTORE(8, EXTCODESIZE(calldata word 1)) observes such differences;
+// slots 9 and 10 record BLOCKHASH of the parent and of the third ancestor
 func vStoreContractV(pad int) []byte {
 	a := newAsm()
 	a.push1(32).op(0x35).op(0x3b).push1(8).op(0x55) // SSTORE(8, EXTCODESIZE(CALLDATALOAD(32)))
+	a.push1(1).op(0x43).op(0x03).op(0x40).push1(9).op(0x55)  // SSTORE(9, BLOCKHASH(NUMBER-1)): the block's OWN ancestry, also on a side fork
+	a.push1(3).op(0x43).op(0x03).op(0x40).push1(10).op(0x55) // SSTORE(10, BLOCKHASH(NUMBER-3))
 	a.push1(0).op(0x35)                // x = CALLDATALOAD(0)
 	a.op(0x80).push1(0).op(0x1a)       // DUP1; BYTE(0, x)
 	a.push1(0xff).op(0x14)             // EQ
